@@ -168,9 +168,10 @@ def C15_print_full_parse_full : Prop :=
 
 /-- **C15 print_parse (operator fragment).** Proved for every tree built from atoms (`null`,
     `true`, `false`, `self`, `$`, strings, text blocks, numbers, identifiers), parentheses, the
-    4 unary and 19 binary operators, field access `e.f`, indexing `e[i]`, `e in super`, `super.f`
-    and `super[i]` (`Frag`), nested arbitrarily: the minimal printing parses back to the tree.
-    Missing for the full statement: the other postfix forms (slices, calls, object extension),
+    4 unary and 19 binary operators, field access `e.f`, indexing `e[i]`, calls `f(a, n = b)` with
+    positional and named arguments and `tailstrict`, `e in super`, `super.f` and `super[i]`
+    (`Frag`), nested arbitrarily: the minimal printing parses back to the tree.
+    Missing for the full statement: the other postfix forms (slices, object extension),
     the prefix forms that extend to the right (`local`, `if`, `function`, `assert`, `import*`,
     `error`), arrays, objects and comprehensions (covered by the correspondence check only). -/
 theorem C15_print_parse_partial {e : Expr} (h : Frag e) (toks : List Token)
@@ -223,6 +224,14 @@ theorem C15_binary_left_assoc {a b c : Expr} {ta tb tc : TokKind}
     rw [P_binary_bare fa op1 .zero (by omega), P_binary_bare fb op2 .zero (by omega),
       atom_P ha, atom_P hb, atom_P hc]
     rfl
+
+/-- non-vacuity: `f(a, n = b) tailstrict` is in the fragment -/
+example : Frag (.call (.ident ⟨"66", .zero⟩ .zero)
+    [.positional (.ident ⟨"61", .zero⟩ .zero), .named ⟨"6e", .zero⟩ (.ident ⟨"62", .zero⟩ .zero)] true .zero) :=
+  .call _ _ _ (.ident _ _) (by
+    intro a ha
+    simp only [List.mem_cons, List.mem_nil_iff, or_false] at ha
+    rcases ha with rfl | rfl <;> exact .ident _ _)
 
 /-- non-vacuity: `-a.f[b] * (c + d) in super` is in the fragment; its minimal printing needs
     exactly the one pair of parentheses that is in the tree -/
